@@ -3,6 +3,7 @@ import NA.Proofs.F2Exec
 import NA.Proofs.F2Acl
 import NA.Proofs.F2Unordered
 import NA.Proofs.F1Names
+import NA.Proofs.F2Final
 /-!
 # F2 — the IOS diff engine on fragment F2 (C02, C07, C08, C10, C14)
 
@@ -95,8 +96,250 @@ theorem ios_unordered_ranges (as bs : List String) (hnd : as.Nodup) :
       fDel rsA = sDel bs 0 as ∧ fEq rsA = sEq bs 0 as ∧ fIns rsB = sIns as 0 bs :=
   diffUnordered_spec as bs hnd
 
+/-! ## 5. End to end -/
+
+/-- **`ios_F2_converges`** (END TO END, all of fragment F2).  For every pair of configurations and
+Myers scripts that passes the decidable check `wfB` (names pairwise different, at most one `in`/`out`
+binding per interface and every binding refers to a defined ACL, every ACL pair passes `pairOK` —
+valid script, lines pairwise different modulo `log`, NO REMARK LINES in incrementally edited pairs —,
+route lines pairwise different) and that `checkIOSInterfaces` accepts:
+
+* the whole printed script (mode lines and `exit` included) is accepted command by command by the
+  strict device started on the device configuration;
+* every binding of a target interface is in place and points to an ACL that exists and is
+  block-equivalent modulo `log` to the target's ACL; a direction the target does not bind is unbound;
+* the route set is the device's minus the deleted routes of VRFs for which the target specifies
+  routes plus the target's new routes;
+* an interface the target does not name keeps its bindings, and the ACLs it binds exist with
+  exactly their original entries (interfaces of unmanaged VRFs and interfaces unknown to Netspoc). -/
+theorem ios_F2_converges (a0 b : Config) (sc : Scripts) (hw : wfB a0 b sc = true) (hok : (engine a0 b sc).ok = true) :
+    ∃ d', (exec (ofConfig a0) (engine a0 b sc).script).map strip = some d' ∧
+      (∀ bi ∈ b.intfs, ∀ bd ∈ bi.binds, ∃ n, slotOf d' bi.name bd.dir = some n ∧ hasAcl d' n = true ∧
+          AclEqv (linesOf d' n) (b.lines bd.acl)) ∧
+      (∀ bi ∈ b.intfs, ∀ dir, isDir dir = true → dir ∉ bi.binds.map (·.dir) → slotOf d' bi.name dir = none) ∧
+      (∀ t, t ∈ d'.routes ↔ (t ∈ a0.routes.map (·.text) ∧ ¬ DelT (alignVRFs a0 b {}).2.routes b.routes t) ∨
+          InsT (alignVRFs a0 b {}).2.routes b.routes t) ∧
+      (∀ x, x ∉ b.intfs.map (·.name) → ∀ dir, isDir dir = true → slotOf d' x dir = slotOf (ofConfig a0) x dir) ∧
+      (∀ i ∈ a0.intfs, i.name ∉ b.intfs.map (·.name) → ∀ bd ∈ i.binds,
+          hasAcl d' bd.acl = true ∧ entriesOf d' bd.acl = entriesOf (ofConfig a0) bd.acl) :=
+  F2_end_to_end a0 b sc (WF_of_wfB hw) hok
+
+/-- `ios_script_accepted` (C08 for F2: `ios_objects_before_use`, `ios_no_referenced_acl_deleted`): under
+`wfB` the strict device — which refuses `ip access-group` of an ACL that does not exist at that
+moment, `no ip access-list extended` of a missing or still bound ACL, a used sequence number, a
+duplicate entry, a sub-command outside its mode — accepts every command of the script. -/
+theorem ios_script_accepted (a0 b : Config) (sc : Scripts) (hw : wfB a0 b sc = true) (hok : (engine a0 b sc).ok = true) :
+    (exec (ofConfig a0) (engine a0 b sc).script).isSome = true := by
+  obtain ⟨d', h, _⟩ := ios_F2_converges a0 b sc hw hok
+  cases hx : exec (ofConfig a0) (engine a0 b sc).script with
+  | none => rw [hx] at h; cases h
+  | some _ => rfl
+
+/-- `ios_bindings_converge`: after the script every target interface has exactly the target's in/out
+bindings, pointing to ACLs equivalent to the target's. -/
+theorem ios_bindings_converge (a0 b : Config) (sc : Scripts) (hw : wfB a0 b sc = true) (hok : (engine a0 b sc).ok = true) :
+    ∃ d', (exec (ofConfig a0) (engine a0 b sc).script).map strip = some d' ∧
+      ∀ bi ∈ b.intfs, ∀ dir, isDir dir = true →
+        match bi.binds.find? (·.dir == dir) with
+        | some bd => ∃ n, slotOf d' bi.name dir = some n ∧ hasAcl d' n = true ∧ AclEqv (linesOf d' n) (b.lines bd.acl)
+        | none => slotOf d' bi.name dir = none := by
+  obtain ⟨d', h, h1, h2, _⟩ := ios_F2_converges a0 b sc hw hok
+  refine ⟨d', h, ?_⟩
+  intro bi hbi dir hdir
+  cases hf : bi.binds.find? (·.dir == dir) with
+  | some bd =>
+    have hmem := List.mem_of_find?_eq_some hf
+    have hd : bd.dir = dir := by simpa using List.find?_some hf
+    obtain ⟨n, k1, k2, k3⟩ := h1 bi hbi bd hmem
+    exact ⟨n, by rw [← hd]; exact k1, k2, k3⟩
+  | none =>
+    apply h2 bi hbi dir hdir
+    intro hc
+    obtain ⟨bd, hbd, hbdd⟩ := List.mem_map.mp hc
+    have := List.find?_eq_none.mp hf bd hbd
+    simp [hbdd] at this
+
+/-- `ios_routes_converge` (per VRF): for a VRF in which the target specifies routes, a route line of
+either side is on the device after the script iff it is a route of the target. -/
+theorem ios_routes_converge (a0 b : Config) (sc : Scripts) (hw : wfB a0 b sc = true) (hok : (engine a0 b sc).ok = true) :
+    ∃ d', (exec (ofConfig a0) (engine a0 b sc).script).map strip = some d' ∧
+      (∀ r ∈ a0.routes ++ b.routes, r.vrf ∈ b.routes.map (·.vrf) →
+        (r.text ∈ d'.routes ↔ r.text ∈ b.routes.map (·.text))) ∧
+      (∀ t ∈ d'.routes, t ∈ a0.routes.map (·.text) ∨ t ∈ b.routes.map (·.text)) := by
+  obtain ⟨d', h, _, _, hr, _⟩ := ios_F2_converges a0 b sc hw hok
+  have hwf := WF_of_wfB hw
+  refine ⟨d', h, ?_, ?_⟩
+  · intro r hr0 hv
+    rw [hr r.text]
+    constructor
+    · rintro (⟨h1, h2⟩ | ⟨r', hr', h3, _⟩)
+      · -- a device route that stays: it is not deleted, so it is a target route
+        apply Classical.byContradiction
+        intro hnb
+        apply h2
+        -- it is a compared device route
+        obtain ⟨r0, hr0m, hr0t⟩ := List.mem_map.mp h1
+        have hsame : r0.vrf = r.vrf := by
+          rcases List.mem_append.mp hr0 with hra | hrb
+          · -- both are device routes with the same text
+            obtain ⟨k, hk, hkk⟩ := List.getElem_of_mem hr0m
+            obtain ⟨k', hk', hkk'⟩ := List.getElem_of_mem hra
+            have : k = k' := by
+              have h1' : (a0.routes.map (·.text))[k]'(by simpa using hk) = (a0.routes.map (·.text))[k']'(by simpa using hk') := by
+                simp only [List.getElem_map, hkk, hkk', hr0t]
+              exact (List.getElem_inj hwf.aRoutes).mp h1'
+            subst this
+            rw [← hkk, ← hkk']
+          · exact hwf.routeVrf r0 hr0m r hrb hr0t
+        have hkeep : r0 ∈ (alignVRFs a0 b {}).2.routes := by
+          unfold alignVRFs
+          simp only
+          split
+          · exact hr0m
+          · exact List.mem_filter.mpr ⟨hr0m, by rw [hsame]; simp [hv]⟩
+        exact ⟨r0, hkeep, hr0t, hnb, by rw [hsame]; simpa using hv⟩
+      · rw [← h3]; exact List.mem_map_of_mem hr'
+    · intro hb
+      by_cases hA : r.text ∈ ((alignVRFs a0 b {}).2.routes).map (·.text)
+      · left
+        obtain ⟨r0, hr0m, hr0t⟩ := List.mem_map.mp hA
+        have hsub : r0 ∈ a0.routes := by
+          have : ∀ x ∈ (alignVRFs a0 b {}).2.routes, x ∈ a0.routes := by
+            intro x hx
+            unfold alignVRFs at hx
+            simp only at hx
+            split at hx
+            · exact hx
+            · exact (List.mem_filter.mp hx).1
+          exact this r0 hr0m
+        refine ⟨by rw [← hr0t]; exact List.mem_map_of_mem hsub, ?_⟩
+        rintro ⟨a, _, _, h4, _⟩
+        exact h4 hb
+      · right
+        obtain ⟨r', hr', hr't⟩ := List.mem_map.mp hb
+        exact ⟨r', hr', hr't, hA⟩
+  · intro t ht
+    rcases (hr t).mp ht with ⟨h1, _⟩ | ⟨r', hr', h3, _⟩
+    · exact Or.inl h1
+    · exact Or.inr (by rw [← h3]; exact List.mem_map_of_mem hr')
+
+/-- `ios_routes_untouched_if_unspecified`: a device route of a VRF for which the target specifies no
+route is still there after the script (and no route is added to such a VRF: every added route is a
+target route, `ios_routes_converge`). -/
+theorem ios_routes_untouched_if_unspecified (a0 b : Config) (sc : Scripts) (hw : wfB a0 b sc = true)
+    (hok : (engine a0 b sc).ok = true) :
+    ∃ d', (exec (ofConfig a0) (engine a0 b sc).script).map strip = some d' ∧
+      ∀ r ∈ a0.routes, r.vrf ∉ b.routes.map (·.vrf) → r.text ∈ d'.routes := by
+  obtain ⟨d', h, _, _, hr, _⟩ := ios_F2_converges a0 b sc hw hok
+  have hwf := WF_of_wfB hw
+  refine ⟨d', h, ?_⟩
+  intro r hr0 hv
+  rw [hr r.text]
+  left
+  refine ⟨List.mem_map_of_mem hr0, ?_⟩
+  rintro ⟨a, ha, hat, _, hav⟩
+  -- the deleted route has the same text, hence is `r`
+  have hsub : a ∈ a0.routes := by
+    have : ∀ x ∈ (alignVRFs a0 b {}).2.routes, x ∈ a0.routes := by
+      intro x hx
+      unfold alignVRFs at hx
+      simp only at hx
+      split at hx
+      · exact hx
+      · exact (List.mem_filter.mp hx).1
+    exact this a ha
+  obtain ⟨k, hk, hkk⟩ := List.getElem_of_mem hsub
+  obtain ⟨k', hk', hkk'⟩ := List.getElem_of_mem hr0
+  have : k = k' := by
+    have h1' : (a0.routes.map (·.text))[k]'(by simpa using hk) = (a0.routes.map (·.text))[k']'(by simpa using hk') := by
+      simp only [List.getElem_map, hkk, hkk', hat]
+    exact (List.getElem_inj hwf.aRoutes).mp h1'
+  subst this
+  have har : a = r := by rw [← hkk, ← hkk']
+  rw [har] at hav
+  exact hv (by simpa using hav)
+
+/-- `alignVRFs_frame` + `ios_unmanaged_vrf_untouched` (C07 for F2): an interface the target does not
+name — in particular every interface of a VRF the target does not mention, and an interface unknown
+to Netspoc in a managed VRF — keeps its bindings; the ACLs it binds still exist with exactly their
+original entries (never edited, never deleted). -/
+theorem ios_unmanaged_vrf_untouched (a0 b : Config) (sc : Scripts) (hw : wfB a0 b sc = true)
+    (hok : (engine a0 b sc).ok = true) :
+    ∃ d', (exec (ofConfig a0) (engine a0 b sc).script).map strip = some d' ∧
+      (∀ x, x ∉ b.intfs.map (·.name) → ∀ dir, isDir dir = true → slotOf d' x dir = slotOf (ofConfig a0) x dir) ∧
+      (∀ i ∈ a0.intfs, i.name ∉ b.intfs.map (·.name) → ∀ bd ∈ i.binds,
+          hasAcl d' bd.acl = true ∧ entriesOf d' bd.acl = entriesOf (ofConfig a0) bd.acl) := by
+  obtain ⟨d', h, _, _, _, h4, h5⟩ := ios_F2_converges a0 b sc hw hok
+  exact ⟨d', h, h4, h5⟩
+
+/-- `alignVRFs` itself: it only removes interfaces and routes (of VRFs the target does not mention)
+from the compared device configuration, never touches the access lists, and marks the ACLs of
+every removed interface `needed`. -/
+theorem alignVRFs_frame (a b : Config) :
+    (alignVRFs a b {}).2.acls = a.acls ∧
+    (∀ i ∈ a.intfs, i ∈ (alignVRFs a b {}).2.intfs ∨ Marked a (alignVRFs a b {}).1 i) ∧
+    (∃ p : Intf → Bool, (alignVRFs a b {}).2.intfs = a.intfs.filter p) ∧
+    (∃ p : Route → Bool, (alignVRFs a b {}).2.routes = a.routes.filter p) := by
+  obtain ⟨_, h2, h3, h4, h5⟩ := alignVRFs_spec a b {} ⟨rfl, rfl, rfl, rfl, rfl, rfl⟩
+  exact ⟨h2, h3, h4, h5⟩
+
+/-! ## 6. What is false: remark lines (F-C02r at configuration level) -/
+
+namespace W
+open NA.Acl (Act)
+def mkL (t : String) (a : Act) : ALine := ⟨t, t, t, a⟩
+def dA := mkL "deny ip 10.1.0.0 0.0.255.255 any" .deny
+def rN := mkL "remark n1" .remark
+def pA := mkL "permit ip 10.1.0.0 0.0.255.255 any" .permit
+def pT := mkL "permit tcp 10.1.0.0 0.0.255.255 any" .permit
+def dAny := mkL "deny ip any any" .deny
+def e0 (acl : String) : Intf := { name := "Ethernet0", addr := "x", binds := [⟨acl, "in"⟩] }
+def devR : Config := { intfs := [e0 "e0_in"], acls := [("e0_in", [dA, rN, pA, pT, dAny])] }
+def tgtR : Config := { intfs := [e0 "e0_in"], acls := [("e0_in", [pT, rN, dA, pA])] }
+/-- the ranges `myers.Diff` returns for these lists (validated by the driver on the corpus case) -/
+def scR : Scripts := { acl := [(("e0_in", "e0_in"), [⟨0,1,0,0⟩, ⟨1,1,0,1⟩, ⟨1,2,1,2⟩, ⟨2,2,2,3⟩, ⟨2,3,3,4⟩, ⟨3,5,4,4⟩])] }
+def scR2 : Scripts := { acl := [(("e0_in", "e0_in"), [⟨0,1,0,0⟩, ⟨1,3,0,2⟩, ⟨3,3,2,3⟩, ⟨3,4,3,4⟩])] }
+/-- without the remark line the same pair satisfies `wfB` -/
+def devN : Config := { intfs := [e0 "e0_in"], acls := [("e0_in", [dA, pA, pT, dAny])] }
+def tgtN : Config := { intfs := [e0 "e0_in"], acls := [("e0_in", [pT, dA, pA])] }
+def scN : Scripts := { acl := [(("e0_in", "e0_in"), [⟨0,0,0,1⟩, ⟨0,2,1,3⟩, ⟨2,4,3,3⟩])] }
+end W
+
+open W in
+/-- `ios_F2_converges` is false with remark lines (F-C02r): the script is accepted, but the ACL bound to
+`Ethernet0` ends as `[deny ip A, permit tcp A, remark, permit ip A]`, which is not block-equivalent
+to the target; and a second compare of that device is not empty (`ios_F2_idempotent` is false too) —
+only the second run reaches the target. -/
+theorem ios_F2_converges_counterexample :
+    showChanges (engine devR tgtR scR).script =
+      ["ip access-list resequence e0_in 10000 10000", "ip access-list extended e0_in",
+       "no 40000\\N 10001 permit tcp 10.1.0.0 0.0.255.255 any", "no 50000",
+       "ip access-list resequence e0_in 10 10"] ∧
+    wfB devR tgtR scR = false ∧
+    (exec (ofConfig devR) (engine devR tgtR scR).script).map (fun d =>
+      ((linesOf d "e0_in").map (·.text), blockEquivL (linesOf d "e0_in") (tgtR.lines "e0_in"),
+       showChanges (engine (toConfig d) tgtR scR2).script)) =
+      some (["deny ip 10.1.0.0 0.0.255.255 any", "permit tcp 10.1.0.0 0.0.255.255 any", "remark n1",
+             "permit ip 10.1.0.0 0.0.255.255 any"], false,
+            ["ip access-list resequence e0_in 10000 10000", "ip access-list extended e0_in",
+             "no 10000\\N 30001 deny ip 10.1.0.0 0.0.255.255 any", "ip access-list resequence e0_in 10 10"]) := by
+  refine ⟨by decide, by decide, by decide⟩
+
+/-! ### Non-vacuity -/
+
+open W in
+example : wfB devN tgtN scN = true ∧ (engine devN tgtN scN).ok = true := by decide
+
+open W in
+example : incrOK (devN.lines "e0_in") (tgtN.lines "e0_in") [⟨0,0,0,1⟩, ⟨0,2,1,3⟩, ⟨2,4,3,3⟩] = true := by decide
+
+example : replaceOK [W.pA] [W.pT, W.dAny] [⟨0,1,0,0⟩, ⟨0,0,0,2⟩] = true := by decide
+
 def obligations : List Lean.Name := [
   ``ios_names_fresh, ``ios_confmode_tracks, ``ios_confmode_tracks_events, ``ios_confmode_exec,
-  ``ios_acl_object_converges, ``ios_acl_object_replaced, ``ios_unordered_ranges]
+  ``ios_acl_object_converges, ``ios_acl_object_replaced, ``ios_unordered_ranges,
+  ``ios_F2_converges, ``ios_script_accepted, ``ios_bindings_converge, ``ios_routes_converge,
+  ``ios_routes_untouched_if_unspecified, ``ios_unmanaged_vrf_untouched, ``alignVRFs_frame,
+  ``ios_F2_converges_counterexample]
 
 end NA.F2
